@@ -36,7 +36,7 @@ def floors(tier):
             "edge_reason:wb": 30 if q else 400, "zero_idiom_active": 40 if q else 600, "alias_edges": 300 if q else 5000,
             "killed_candidates": 500 if q else 8000, "default_rule_forms": 100 if q else 1500, "hidden_register_operand_instances": 100 if q else 1500, "isa:x86": 1, "isa:aarch64": 1,
             "weights_checked": 4000 if q else 60000,
-            "sve_view_kernels_with_z": 100 if q else 1500}
+            "sve_view_kernels_with_z": 100 if q else 1000}
 
 
 def plan(tier, seed):
